@@ -560,3 +560,43 @@ Definition check_complete (G : grammar) (p : prog) (C : ccert) (fuel : nat) : bo
 (** the grammar in which the rules of the nonterminals [bl] are emptied (no words) *)
 Definition blank (bl : list nat) (G : grammar) : grammar :=
   map (fun nr => if existsb (Nat.eqb (fst nr)) bl then RNone else snd nr) (combine (seq 0 (List.length G)) G).
+
+(** * Sub-grammars: a grammar G2 (modified / additional rules) whose words are words of G under a renaming of nonterminals *)
+Section Incl.
+  Variable G : grammar.
+  (** a structural, incomplete but sound inclusion test  L_G(a) <= L_G(b) *)
+  Fixpoint rx_incl (fuel : nat) (a b : rx) : bool :=
+    match fuel with
+    | O => false
+    | S n =>
+      if rx_eqb a b then true else
+      match a with
+      | RNone => true
+      | RAlt a1 a2 => rx_incl n a1 b && rx_incl n a2 b
+      | _ =>
+        match b with
+        | RAlt b1 b2 => rx_incl n a b1 || rx_incl n a b2
+        | RSym (DNT m) => match nth_error G m with Some rhs => rx_incl n a rhs | None => false end
+        | RSeq b1 b2 =>
+            (match a with RSeq a1 a2 => rx_incl n a1 b1 && rx_incl n a2 b2 | _ => false end) ||
+            (rx_incl n a b1 && rnull_lo G n b2)
+        | RStar b1 => match a with RStar a1 => rx_incl n a1 b1 | REps => true | _ => false end
+        | RSym (DTok ks2) => match a with RSym (DTok ks1) => kset_sub ks1 ks2 | _ => false end
+        | _ => false
+        end
+      end
+    end.
+End Incl.
+Fixpoint rx_map (phi : nat -> nat) (r : rx) : rx :=
+  match r with
+  | RSym (DNT m) => RSym (DNT (phi m))
+  | RSeq a b => RSeq (rx_map phi a) (rx_map phi b)
+  | RAlt a b => RAlt (rx_map phi a) (rx_map phi b)
+  | RStar a => RStar (rx_map phi a)
+  | r => r
+  end.
+Definition sub_grammar_ok (G G2 : grammar) (phi : nat -> nat) (fuel : nat) : bool :=
+  forallb (fun n => match nth_error G2 n with
+                    | Some r2 => rx_incl G fuel (rx_map phi r2) (match nth_error G (phi n) with Some r => r | None => RNone end)
+                    | None => true
+                    end) (seq 0 (List.length G2)).
